@@ -817,7 +817,10 @@ fn gen_case(batch: &str, index: u64, seed: u64) -> Case {
             let m = pr.usize_in(2, 10);
             let p = pr.usize_in(1, 6);
             let scale = *pr.pick(&[0.1, 1.0, 3.0]);
-            let x: Vec<Vec<f64>> = (0..m).map(|_| (0..p).map(|_| scale * r.range(-1.0, 1.0)).collect()).collect();
+            // points far from the origin relative to their mutual distances (years, prices, timestamps): the
+            // closed forms must hold there too
+            let koff = if f32m { *pr.pick(&[0.0, 0.0, 100.0, 1000.0, 10_000.0]) } else { *pr.pick(&[0.0, 0.0, 100.0, 10_000.0, 1.0e6, 1.7e9]) };
+            let x: Vec<Vec<f64>> = (0..m).map(|_| (0..p).map(|_| koff + scale * r.range(-1.0, 1.0)).collect()).collect();
             let mut kernel = gen_kernel(&mut pr, false, false);
             if kernel.kind == "poly" && pr.chance(0.3) {
                 kernel.coef0 = 1.0; // keep the base positive for non-integer-safe powf
@@ -842,6 +845,22 @@ fn gen_case(batch: &str, index: u64, seed: u64) -> Case {
             };
             let queries = (0..3).map(|_| (0..p).map(|_| r.range(-3.0, 3.0)).collect()).collect();
             Case { model: "svr".into(), x, y, kernel, c: 100.0, tol: if batch == "svr-hard-tight" { 1e-4 } else { 1e-3 }, epoch: 0, eps: *pr.pick(&[0.0, 0.1]), f32m: false, queries, budget: 4_000_000_000, tape: TapeSpec::prng(tape_seed), kind: "svr-hard".into() }
+        }
+        "svr-large-features" => {
+            // large kernel curvature (linear kernel on features of magnitude 30..300, quadratic on ~10): steps in
+            // alpha are tiny in absolute terms although the fit is far from optimal
+            let f32v = pr.chance(0.6);
+            let n = pr.usize_in(6, 16);
+            let p = pr.usize_in(1, 3);
+            let fs = *pr.pick(&[30.0, 100.0, 300.0]);
+            let quad = pr.chance(0.3);
+            let fs = if quad { 10.0 } else { fs };
+            let x: Vec<Vec<f64>> = (0..n).map(|_| (0..p).map(|_| fs * r.range(-1.0, 1.0)).collect()).collect();
+            let coef: Vec<f64> = (0..p).map(|_| r.range(-0.02, 0.02)).collect();
+            let eps = *pr.pick(&[0.1, 0.2]);
+            let y: Vec<f64> = x.iter().map(|row| row.iter().zip(&coef).map(|(a, b)| a * b).sum::<f64>() + 0.5 * eps * r.range(-1.0, 1.0)).collect();
+            let kernel = if quad { KSpec { kind: "poly".into(), gamma: 0.5, degree: 2.0, coef0: 1.0 } } else { KSpec { kind: "linear".into(), gamma: 0.0, degree: 0.0, coef0: 0.0 } };
+            Case { model: "svr".into(), x, y, kernel, c: *pr.pick(&[0.1, 1.0]), tol: 1e-3, epoch: 0, eps, f32m: f32v, queries: vec![], budget: 500_000_000, tape: TapeSpec::prng(tape_seed), kind: "svr-large-features".into() }
         }
         "svr-f32-resolution" => {
             // single precision with targets so large that tol lies below the resolution of the gradient values
@@ -943,6 +962,7 @@ impl Property for C10 {
             Batch { name: "svr", count: if q { 12_000 } else { 600_000 }, simulated: false, exhaustive: false, note: "schedule-free ride-along: SVR draws nothing; linear / RBF / polynomial degree<=2, C<=10, n<=40; termination judged by state-cycle detection over the tick hook's state digests (step budget only as fallback)" },
             Batch { name: "svr-hard", count: if q { 48 } else { 1_500 }, simulated: false, exhaustive: false, note: "schedule-free: the slowly converging corner (C = 100, linear / quadratic / RBF kernels on features in [-3,3], n 20..60, tol 1e-3) with a 4e9-iteration fallback budget; few runs because each takes up to seconds" },
             Batch { name: "svr-hard-tight", count: if q { 12 } else { 600 }, simulated: false, exhaustive: false, note: "same corner at tol 1e-4, quadratic kernel, low noise (up to ~2e7 iterations per fit)" },
+            Batch { name: "svr-large-features", count: if q { 1_500 } else { 60_000 }, simulated: false, exhaustive: false, note: "schedule-free: large kernel curvature (linear kernel on features of magnitude 30..300, quadratic on ~10), noise below epsilon, f32 and f64" },
             Batch { name: "svr-f32-resolution", count: if q { 1_500 } else { 60_000 }, simulated: false, exhaustive: false, note: "schedule-free: f32 fits whose tolerance lies below the floating-point resolution of the targets (|y| 1e3..1e5, tol 1e-3..1e-4) — the region of the repaired livelock" },
             Batch { name: "svr-f32", count: if q { 1_000 } else { 100_000 }, simulated: false, exhaustive: false, note: "schedule-free, single precision" },
             Batch { name: "kernels", count: if q { 6_000 } else { 600_000 }, simulated: false, exhaustive: false, note: "schedule-free: closed forms, symmetry, PSD of linear/RBF Gram matrices" },
